@@ -4,6 +4,56 @@ package main
 // coq/theories/Gen/Code<Area>.v per area.  The refinement lemmas are in
 // coq/theories/<Area>/CodeRefine.v.
 
+// sniproxy decoder methods (decoder.go): d.r is an abstract reader; d.n, d.err, d.tail are state.
+var (
+	dR    = pspec{src: "d.r", name: "d_r", typ: "object:reader"}
+	dN    = pspec{src: "d.n", name: "d_n", typ: "int64"}
+	dErr  = pspec{src: "d.err", name: "d_err", typ: "error"}
+	dTail = pspec{src: "d.tail", name: "d_tail", typ: "int64"}
+)
+
+var (
+	eW   = pspec{src: "e.w", name: "e_w", typ: "object:writer"}
+	eN   = pspec{src: "e.n", name: "e_n", typ: "int64"}
+	eErr = pspec{src: "e.err", name: "e_err", typ: "error"}
+)
+
+func encT(name string, res bool, ps ...pspec) codeTarget {
+	cfg := transCfg{res: res, params: ps,
+		libAlias: map[string]string{"endian.PutUint64": "encoding/binary.LittleEndian.PutUint64"},
+		calls: map[string]string{
+			"e.hasErr": "sniproxy|encoder|hasErr", "e.write": "sniproxy|encoder|write",
+			"e.u64": "sniproxy|encoder|u64", "e.bytes": "sniproxy|encoder|bytes"}}
+	if res {
+		cfg.stateOut = []string{"e.n", "e.err"}
+	}
+	return codeTarget{dir: "sniproxy", recv: "encoder", name: name, cfg: cfg}
+}
+
+func decT(name string, res bool, ps ...pspec) codeTarget {
+	cfg := transCfg{res: res, params: ps,
+		errLits:  map[string]bool{"tailError": true},
+		libAlias: map[string]string{"endian.Uint64": "encoding/binary.LittleEndian.Uint64"},
+		calls: map[string]string{
+			"d.hasErr": "sniproxy|decoder|hasErr", "d.read": "sniproxy|decoder|read",
+			"d.u64": "sniproxy|decoder|u64", "d.bytes": "sniproxy|decoder|bytes",
+			"d.tailError": "sniproxy|decoder|tailError"},
+		fuel: "S (rd_size d_r_rd)"}
+	if res {
+		for _, p := range ps {
+			switch p.src {
+			case "d.n", "d.err", "d.tail":
+				cfg.stateOut = append(cfg.stateOut, p.src)
+			case "buf":
+				if name == "read" {
+					cfg.stateOut = append(cfg.stateOut, p.src)
+				}
+			}
+		}
+	}
+	return codeTarget{dir: "sniproxy", recv: "decoder", name: name, cfg: cfg}
+}
+
 func init() {
 	register("CodeCaco", func(repo string) (string, error) {
 		return emitCodeArea(repo, "CodeCaco", []codeTarget{
@@ -42,6 +92,27 @@ func init() {
 			{dir: "sniproxy", name: "isRejectedDomain", cfg: transCfg{externs: map[string]extern{
 				"net.ParseIP": {name: "net_ParseIP_notnil", args: []string{"string"}, res: []string{tNonnil}},
 			}}},
+			// C13: the wire decoder over an abstract reader; receiver fields n, err, tail are state
+			decT("hasErr", false, dErr),
+			decT("Err", false, dErr),
+			decT("count", false, dN),
+			decT("overread", false, dErr),
+			decT("tailError", false, dTail),
+			decT("read", true, dR, dN, dErr, pspec{src: "buf", name: "buf", typ: "[]byte"}),
+			decT("rest", true, dR, dN, dErr),
+			decT("u8", true, dR, dN, dErr),
+			decT("u64", true, dR, dN, dErr),
+			decT("bytes", true, dR, dN, dErr, pspec{src: "buf", name: "buf", typ: "[]byte"}),
+			decT("str", true, dR, dN, dErr),
+			decT("end", true, dR, dErr, dTail),
+			// C13: the wire encoder over an abstract writer; n and err are state
+			encT("hasErr", false, eErr),
+			encT("Err", false, eErr),
+			encT("write", true, eW, eN, eErr, pspec{src: "bs", name: "bs", typ: "[]byte"}),
+			encT("u64", true, eW, eN, eErr, pspec{src: "v", name: "v", typ: "uint64"}),
+			encT("u8", true, eW, eN, eErr, pspec{src: "v", name: "v", typ: "uint8"}),
+			encT("bytes", true, eW, eN, eErr, pspec{src: "bs", name: "bs", typ: "[]byte"}),
+			encT("str", true, eW, eN, eErr, pspec{src: "s", name: "s", typ: "string"}),
 			// C14: the length of the second Peek of HelloInfo: the statements up to `recLen := ...`
 			{dir: "sniproxy", recv: "TLSHelloConn", name: "HelloInfo", cfg: transCfg{
 				coqName: "gen_sniproxy_HelloInfo_recLen", checked: true,
@@ -83,6 +154,26 @@ func init() {
 				{src: "claims.Iat", name: "claims_Iat", typ: "int64"},
 				{src: "claims.Exp", name: "claims_Exp", typ: "int64"},
 				{src: "now", name: "now", typ: "time.Time"}}}},
+			{dir: "jwt", name: "checkHeader", cfg: transCfg{params: []pspec{
+				{src: "got.KeyID", name: "got_KeyID", typ: "string"}, {src: "got.Alg", name: "got_Alg", typ: "string"},
+				{src: "got.Typ", name: "got_Typ", typ: "string"},
+				{src: "want.KeyID", name: "want_KeyID", typ: "string"}, {src: "want.Alg", name: "want_Alg", typ: "string"},
+				{src: "want.Typ", name: "want_Typ", typ: "string"}}}},
+			{dir: "jwt", name: "CheckClaimSet", cfg: transCfg{params: []pspec{
+				{src: "claims", name: "claims_nil", typ: tNilness}, {src: "tmpl", name: "tmpl_nil", typ: tNilness},
+				{src: "claims.Iss", name: "claims_Iss", typ: "string"}, {src: "claims.Aud", name: "claims_Aud", typ: "string"},
+				{src: "claims.Typ", name: "claims_Typ", typ: "string"}, {src: "claims.Sub", name: "claims_Sub", typ: "string"},
+				{src: "claims.Scope", name: "claims_Scope", typ: "string"},
+				{src: "tmpl.Iss", name: "tmpl_Iss", typ: "string"}, {src: "tmpl.Aud", name: "tmpl_Aud", typ: "string"},
+				{src: "tmpl.Typ", name: "tmpl_Typ", typ: "string"}, {src: "tmpl.Sub", name: "tmpl_Sub", typ: "string"},
+				{src: "tmpl.Scope", name: "tmpl_Scope", typ: "string"}}}},
+			// the window a constructor stores: |w|
+			{dir: "signer", name: "NewTimeSigner", cfg: transCfg{
+				coqName: "gen_signer_NewTimeSigner_window", retField: "window", results: []string{"time.Duration"},
+				params: []pspec{{src: "window", name: "window", typ: "time.Duration"}}}},
+			{dir: "signer", name: "NewRSATimeSigner", cfg: transCfg{
+				coqName: "gen_signer_NewRSATimeSigner_window", retField: "window", results: []string{"time.Duration"},
+				params: []pspec{{src: "w", name: "w", typ: "time.Duration"}}}},
 			{dir: "roles", name: "subtleStringEq"},
 			{dir: "roles", name: "checkPassCode", cfg: transCfg{params: []pspec{
 				{src: "claim", name: "claim", typ: "string"},
@@ -135,6 +226,40 @@ func init() {
 				params: []pspec{{src: "c.route.routes", name: "c_route_routes", typ: "[]string"},
 					{src: "c.routePos", name: "c_routePos", typ: "int"},
 					{src: "inc", name: "inc", typ: "int"}}}},
+		})
+	})
+	register("CodeLexing", func(repo string) (string, error) {
+		tm := map[string]string{"*Error": "goerr", "[]*Error": "[]goerr", "*Token": "token"}
+		lex := func(name string) codeTarget {
+			return codeTarget{dir: "lexing", name: name, cfg: transCfg{
+				res: true, fuel: "S (List.length x_in)", typeMap: tm,
+				objects: map[string]string{"x": "lexer"}}}
+		}
+		return emitCodeArea(repo, "CodeLexing", []codeTarget{
+			// ErrorList.Add: the receiver's fields are state; e == nil is the Go panic
+			{dir: "lexing", recv: "ErrorList", name: "Add", cfg: transCfg{
+				res: true, typeMap: tm, stateOut: []string{"lst.errs", "lst.inJail"},
+				params: []pspec{
+					{src: "lst.errs", name: "lst_errs", typ: "[]goerr"},
+					{src: "lst.Max", name: "lst_Max", typ: "int"},
+					{src: "lst.inJail", name: "lst_inJail", typ: "bool"},
+					{src: "e", name: "e_nil", typ: tNilness},
+					{src: "e", name: "e", typ: "goerr"}}}},
+			{dir: "lexing", name: "IsLetter"},
+			{dir: "lexing", name: "IsDigit"},
+			{dir: "lexing", name: "IsHexDigit"},
+			{dir: "lexing", name: "IsIdentLetter"},
+			{dir: "lexing", name: "IsWhite"},
+			{dir: "lexing", name: "IsWhiteOrEndl"},
+			lex("lexLineComment"),
+			lex("lexBlockComment"),
+			lex("LexComment"),
+			lex("LexNumber"),
+			lex("LexIdent"),
+			{dir: "lexing", name: "digitVal"},
+			lex("lexEscape"),
+			lex("LexRawString"),
+			lex("LexString"),
 		})
 	})
 }
